@@ -31,6 +31,8 @@ func BuildServerFlags(cmd *cobra.Command, srv *server.Command) {
 	flags.StringVar(&srv.Config.LogPath, "log-path", srv.Config.LogPath, "Log path")
 	flags.BoolVar(&srv.Config.Verbose, "verbose", srv.Config.Verbose, "Enable verbose logging")
 	flags.Uint64Var(&srv.Config.MaxMapCount, "max-map-count", srv.Config.MaxMapCount, "Limits the maximum number of active mmaps. Pilosa will fall back to reading files once this is exhausted. Set below your system's vm.max_map_count.")
+	flags.IntVar(&srv.Config.WorkerPoolSize, "worker-pool-size", srv.Config.WorkerPoolSize, "Number of goroutines that execute queries.")
+	flags.IntVar(&srv.Config.ImportWorkerPoolSize, "import-worker-pool-size", srv.Config.ImportWorkerPoolSize, "Number of goroutines that process imports.")
 	flags.Uint64Var(&srv.Config.MaxFileCount, "max-file-count", srv.Config.MaxFileCount, "Soft limit on the maximum number of fragment files Pilosa keeps open simultaneously.")
 
 	// TLS
